@@ -477,13 +477,13 @@ def judge(rep, cases, impl, model, known, classify_nontrivial=None, max_report=3
                 rep.nontrivial.add(key)
         if len(rep.samples) < 6 and (rep.evaluations % 997 == 1 or len(rep.samples) < 2):
             rep.samples.append({"stream": c.stream, "input": readable(c.stream, c.fields), "impl": o, "model": M, "spec": S, "guard": g})
-        a_ok = (o == M) or (c.meta.get('gen') == 'p' and project is not None and project(c.stream, o) == project(c.stream, M))
+        a_ok = (o == M) or (c.meta.get('gen') == 'p' and project is not None and project(c, o) == project(c, M))
         if not a_ok:
             diverging.append((c, o, m))
         pj = project if project else (lambda st, x: x)
-        if g == "1" and S != "-" and pj(c.stream, M) != pj(c.stream, S):
+        if g == "1" and S != "-" and pj(c, M) != pj(c, S):
             thm_fail.append((c, o, m))
-        if S != "-" and pj(c.stream, o) != pj(c.stream, S):
+        if S != "-" and pj(c, o) != pj(c, S):
             if not a_ok:
                 spec_fail_div.append((c, o, m))
             else:
